@@ -687,8 +687,19 @@ def gen_case(rng, size, n_queries, outside):
             queries.append(s)
     ids = sorted({o["id"] for o in pop})
     gets = []
-    for _ in range(min(3, len(ids))):
-        gets.append({"id": rng.choice(ids), "att": [gen_prop_filter(rng, paths, {}) for _ in range(rng.choice([0, 1, 2]))]})
+    by_id = {}
+    for o in pop:
+        by_id.setdefault(o["id"], []).append(o)
+    for _ in range(min(6, 2 * len(ids))):
+        gid = rng.choice(ids)
+        own = []
+        for o in by_id[gid]:
+            walk(o["tree"], [], own)
+        def one():
+            # mostly a filter on a property of this very object family (hit / near miss), sometimes any filter
+            return gen_prop_filter(rng, own if own and rng.random() < 0.7 else paths, {})
+        gets.append({"id": gid, "att": [one() for _ in range(rng.choice([0, 1, 1, 2]))],
+                     "comp": [one() for _ in range(rng.choice([0, 1, 1, 2]))]})
     return {"pop": pop, "split": rng.randrange(0, len(pop) + 1), "queries": queries, "gets": gets, "hist": hist,
             "outside": outside}
 
@@ -716,7 +727,8 @@ def case_terms(case, idx, mode, om):
             mode, om, idx, idx, idx, idx, idx, common.coq_bool(bool(s["wrap"] or s["comp"])),
             flist_coq(s["q"]), flist_coq(s["att"]), flist_coq(s["comp"])))
     for g in case.get("gets", []):          # all_versions(id) with attached filters, after the queries
-        terms.append("show_av %s %s p%d m%d t%d (vs %s) %s" % (mode, om, idx, idx, idx, cs(g["id"]), flist_coq(g["att"])))
+        terms.append("show_av %s %s p%d m%d t%d ma%d tb%d (vs %s) %s %s" % (
+            mode, om, idx, idx, idx, idx, idx, cs(g["id"]), flist_coq(g["att"]), flist_coq(g.get("comp", []))))
     return defs, terms
 
 
@@ -898,6 +910,18 @@ FINDINGS = {
 }
 
 
+def bad_keys(g, vals):
+    """Keys of the stored objects for which some attached filter of the get spec does not hold (reference evaluation)."""
+    out = []
+    for key, o in vals:
+        try:
+            if not all(ref_holds(f, o) for f in g["att"]):
+                out.append(key)
+        except Undefined:
+            pass
+    return out
+
+
 def oracle_case(case, impl, viol, stats, om, model_q=None):
     pop = case["pop"]
     vals = [(o["key"], to_ref(o["tree"])) for o in pop]
@@ -990,35 +1014,80 @@ def oracle_case(case, impl, viol, stats, om, model_q=None):
                     "%s route: result of the conjunction is not the intersection of the results of its parts" % route,
                     {"kind": "law", "pop": [to_json(o["tree"]) for o in pop], "split": k, "route": route,
                      "a": spa["q"] + spa["att"] + spa["comp"], "b": spb["q"] + spb["att"] + spb["comp"]}))
-    # attached filters apply to get / all_versions answers
-    by_key = dict(vals)
-    for g, got in zip(case["gets"], impl.get("gets", [])):
-        for route in ("mo", "fs"):
-            for line in got[route]:
-                if line.startswith("ONE "):
-                    keys = [line[4:]]
-                elif line.startswith("OK"):
-                    keys = [x for x in line[3:].split(";") if x]
-                else:
-                    continue
-                for key in keys:
-                    o = by_key.get(key)
-                    if o is None:
+    oracle_gets(case, impl, viol, stats, model_q[len(case["queries"]):] if model_q is not None else None,
+                vals, vals_text, flagged, flagged_fs2)
+
+
+def ref_versions(vals, gid, fl):
+    """Keys of the stored objects with this id on which every filter holds (None: not defined)."""
+    out = []
+    for key, o in vals:
+        if o.get("id") != gid:
+            continue
+        ok = True
+        for f in fl:
+            if not ref_holds(f, o):
+                ok = False
+        if ok:
+            out.append(key)
+    return sorted(out)
+
+
+def oracle_gets(case, impl, viol, stats, model_g, vals, vals_text, flagged, flagged_fs2):
+    """get / all_versions directly and through composites: all_versions(id) is exactly the stored versions of id on
+    which every attached and every composite filter holds; the answer of get, if any, is one of them."""
+    pop = case["pop"]
+    for gi, (g, got) in enumerate(zip(case["gets"], impl.get("gets", []))):
+        for ri, route in enumerate(GET_ROUTES):
+            fl = g["att"] + (g.get("comp", []) if route in ("cmo", "cfs", "c2") else [])
+            try:
+                expect = ref_versions(vals, g["id"], fl)
+            except Undefined:
+                stats["gets_undefined"] += 1
+                continue
+            try:
+                expect_text = ref_versions(vals_text, g["id"], fl)
+            except Exception:      # noqa: BLE001
+                expect_text = None
+            get_line, av_line = got[route]
+            stats["get_answers"] += 1
+            problems = []
+            kind, keys, _ = parse_line(av_line)
+            if not (kind == "OK" and keys == expect):
+                problems.append(("all_versions", av_line, kind, keys))
+            if get_line.startswith("ONE ") and get_line[4:] not in expect:
+                problems.append(("get", get_line, "ONE", [get_line[4:]]))
+            elif get_line.startswith("EXC"):
+                problems.append(("get", get_line, "EXC", None))
+            for op, line, kind, keys in problems:
+                finding, outside_layout = None, False
+                fl_keys = flagged if route in ("fs", "cfs") else flagged_fs2 if route == "c2" else set()
+                if op == "all_versions":
+                    if kind == "OK" and expect_text is not None and expect_text != expect and keys == expect_text:
+                        finding = FINDINGS["ts"]
+                    elif kind == "OK" and fl_keys and set(keys) <= set(expect) and set(expect) - set(keys) <= fl_keys:
+                        outside_layout = True
+                    elif kind == "OK" and fl_keys and expect_text is not None and set(keys) <= set(expect_text) and \
+                            set(expect_text) - set(keys) <= fl_keys:
+                        outside_layout = True
+                        if expect_text != expect:
+                            finding = FINDINGS["ts"]
+                    if (finding or outside_layout) and model_g is not None and \
+                            not same_line("mo" if route in ("mo", "cmo") else "fs", line, model_g[gi][ri]):
+                        finding, outside_layout = None, False
+                elif kind == "ONE" and expect_text is not None and keys[0] in expect_text:
+                    finding = FINDINGS["ts"]
+                if outside_layout:
+                    stats["outside_layout_hypothesis"] += 1
+                    if finding is None:
                         continue
-                    stats["get_answers"] += 1
-                    try:
-                        good = all(ref_holds(f, o) for f in g["att"])
-                    except Undefined:
-                        continue
-                    if not good:
-                        try:
-                            good_text = all(ref_holds(f, dict(vals_text)[key]) for f in g["att"])
-                        except Exception:      # noqa: BLE001
-                            good_text = False
-                        viol.append(Violation(
-                            "%s route: get/all_versions(%s) answered %s although an attached filter does not hold for it" % (route, g["id"], key),
-                            {"kind": "get", "pop": [to_json(o2["tree"]) for o2 in pop], "get": g, "route": route},
-                            finding=FINDINGS["ts"] if good_text else None))
+                viol.append(Violation(
+                    "%s route: %s(%s) with attached %s%s returns %s; the stored versions on which every one of these filters "
+                    "holds are %s" % (route, op, g["id"], json.dumps(g["att"]),
+                                      (" and composite filters " + json.dumps(g.get("comp", []))) if route in ("cmo", "cfs", "c2") else "",
+                                      line[:300], expect),
+                    {"kind": "get", "pop": [to_json(o2["tree"]) for o2 in pop], "split": case["split"], "get": g, "route": route,
+                     "op": op, "expect": expect}, finding=finding))
 
 
 # --------------------------------------------------------------------------
@@ -1079,15 +1148,18 @@ def same_line(route, g, m):
     return (pg[0] == pm[0]) and (pg[1] == pm[1])
 
 
+GET_ROUTES = ("mo", "fs", "cmo", "cfs", "c2")
+
+
 def compare_gets(case, impl, model, dis):
-    """all_versions(id) with attached filters: memory exactly, filesystem as a multiset."""
+    """all_versions(id) with attached / composite filters: memory exactly, routes through the filesystem as multisets."""
     n = 0
     nq = len(case["queries"])
     for g, got, mod in zip(case["gets"], impl.get("gets", []), model[nq:]):
-        for route, mline in (("mo", mod[0]), ("fs", mod[1])):
+        for route, mline in zip(GET_ROUTES, mod):
             n += 1
             line = got[route][1]
-            if not same_line(route, line, mline):
+            if not same_line("mo" if route in ("mo", "cmo") else "fs", line, mline):
                 dis.append({"route": route + ".all_versions", "get": g, "impl": line[:400], "model": mline[:400],
                             "pop": [to_json(o["tree"]) for o in case["pop"]], "split": case["split"]})
     return n
@@ -1209,7 +1281,7 @@ def check(run):
     except RuntimeError as e:
         run.broken.append(Broken("correspondence", "model evaluation failed", {"error": str(e)[-1500:]}))
     # oracle
-    stats = {"judged": 0, "undefined": 0, "laws": 0, "get_answers": 0, "outside_layout_hypothesis": 0}
+    stats = {"judged": 0, "undefined": 0, "laws": 0, "get_answers": 0, "gets_undefined": 0, "outside_layout_hypothesis": 0}
     for gi, (c, r) in enumerate(good):
         oracle_case(c, r, run.violations, stats, om, model[gi] if model is not None else None)
         for s in c["queries"]:
@@ -1281,9 +1353,28 @@ def replay(payload):
         print("no violation on this input")
         return 0
     if r.get("kind") == "get":
-        res = common.run_impl("c12_impl", [{"pop": r["pop"], "split": 0, "queries": [], "gets": [r["get"]]}], procs=1)[0]
-        print("replay get %s attached=%s -> %s" % (r["get"]["id"], json.dumps(r["get"]["att"]), res["gets"][0][r["route"]]))
-        print("VIOLATION property=C12 replay=(given) (re-evaluate the attached filters on the answer above)")
-        return 1
+        res = common.run_impl("c12_impl", [{"pop": r["pop"], "split": r.get("split", 0), "queries": [], "gets": [r["get"]]}], procs=1)[0]
+        if "gets" not in res:
+            print("replay: could not build the stores: %s" % res["build"])
+            return 1
+        get_line, av_line = res["gets"][0][r["route"]]
+        print("replay %s(%s) attached=%s composite=%s on route %s" % (r.get("op"), r["get"]["id"], json.dumps(r["get"]["att"]),
+                                                                       json.dumps(r["get"].get("comp", [])), r["route"]))
+        print("  get          -> %s" % get_line)
+        print("  all_versions -> %s" % av_line)
+        print("  stored versions on which every filter holds (reference evaluation): %s" % r.get("expect"))
+        expect = r.get("expect")
+        bad = False
+        if expect is not None:
+            kind, keys, _ = parse_line(av_line)
+            if r.get("op") == "all_versions" and not (kind == "OK" and keys == sorted(expect)):
+                bad = True
+            if r.get("op") == "get" and not (get_line == "NONE" or (get_line.startswith("ONE ") and get_line[4:] in expect)):
+                bad = True
+        if bad:
+            print("VIOLATION property=C12 replay=(given)")
+            return 1
+        print("no violation on this input")
+        return 0
     print("replay: unknown payload kind")
     return 2
